@@ -1,1 +1,2 @@
 pub mod e1;
+pub mod e2;
